@@ -1,3 +1,50 @@
-From Asynq Require Import Machine.
-Theorem C05_placeholder : True. Proof. exact I. Qed.
-Print Assumptions C05_placeholder.
+(* C05 — each batch is flushed once, highest priority first; every item is answered.
+   Statements only; proofs in proofs/MachineC05.v.  These are function-level theorems about the
+   model's _select_batch_to_flush / _continue_with_batch / BatchBase.flush for EVERY scheduler
+   state, priority assignment and oracle (set iteration order).  The glue "no transition ever
+   resets a batch's done flag" is covered by the correspondence, not by a theorem (see DESIGN.md). *)
+From Asynq Require Import Machine proofs.MachineC05.
+
+Theorem C05_select_greatest_priority : forall P s k s',
+  select P s = (Some k, s') ->
+  In k (sb s) /\ eligible k s = true /\
+  (forall k', In k' (sb s) -> eligible k' s = true -> prio_lt (prio_of P k s) (prio_of P k' s) = false) /\
+  sb s' = filter (fun k => eligible k s) (sb s).
+Proof. exact select_spec. Qed.
+Print Assumptions C05_select_greatest_priority.
+
+Theorem C05_select_none_iff_nothing_eligible : forall P s s',
+  select P s = (None, s') -> forall k, In k (sb s) -> eligible k s = false.
+Proof. exact select_none. Qed.
+Print Assumptions C05_select_none_iff_nothing_eligible.
+
+Theorem C05_flushed_batch_never_flushed_again : forall P k s,
+  b_done (get_batch k s) = true -> flush_batch P k s = s.
+Proof. exact flush_done_is_noop. Qed.
+Print Assumptions C05_flushed_batch_never_flushed_again.
+
+Theorem C05_flush_answers_every_item : forall P k s,
+  b_done (get_batch k s) = false ->
+  let s' := flush_batch P k s in
+  (exists evs, trace s' = evs ++ EvFlush (fst k) (snd k) (b_items (get_batch k s)) :: trace s /\
+               Forall flush_event evs) /\
+  b_done (get_batch k s') = true /\
+  (forall h, In h (b_items (get_batch k s)) -> get h s <> None -> computed h s' = true) /\
+  (forall h, computed h s = true -> computed h s' = true).
+Proof. exact flush_pending. Qed.
+Print Assumptions C05_flush_answers_every_item.
+
+Theorem C05_events_bracket_one_flush : forall P s,
+  match select P s with
+  | (None, s1) => continue_with_batch P s = s1
+  | (Some k, s1) =>
+    let s' := continue_with_batch P s in
+    (exists evs, trace s' = EvAfter (fst k) (snd k) :: evs ++
+                            EvFlush (fst k) (snd k) (b_items (get_batch k s)) :: EvBefore (fst k) (snd k) :: trace s1 /\
+                 Forall flush_event evs) /\
+    b_done (get_batch k s') = true /\
+    ~ In k (sb s') /\
+    (forall h, In h (b_items (get_batch k s)) -> get h s <> None -> computed h s' = true)
+  end.
+Proof. exact continue_with_batch_spec. Qed.
+Print Assumptions C05_events_bracket_one_flush.
